@@ -19,8 +19,8 @@ import threading
 
 PROPERTY = 'C04'
 LEVEL = 'exploration'
-RULE = ('(prefix P, concurrent set S) drawn from 7 prefixes (incl. a pool of three queued trials) x all pairs (and sampled triples) of 12 mutating RPC kinds, plus every multi-step writer paired with each of 4 pure reads (ListTrials, GetTrial, GetStudy, GetOperation; on SQLite the connection then also yields before every statement, commit and rollback), aimed at '
-        'the same study / trial / display name; per (P,S): every schedule with <=2 (quick) / <=3 (thorough) pre-emptions at '
+RULE = ('(prefix P, concurrent set S) drawn from 8 prefixes (incl. a pool of three queued trials and a paused study being re-activated) x all pairs (and sampled triples) of 12 mutating RPC kinds, plus every multi-step writer paired with each of 4 pure reads (ListTrials, GetTrial, GetStudy, GetOperation; on SQLite the connection then also yields before every statement, commit and rollback), aimed at '
+        'the same study / trial / display name; after every schedule three sequential follow-up calls (CreateTrial, SuggestTrials, GetStudy) are compared as well; per (P,S): every schedule with <=2 (quick) / <=3 (thorough) pre-emptions at '
         'datastore-call and service-lock granularity (capped) + random schedules; RAM and in-memory SQLite. A schedule is '
         'non-trivial when a switch happened between the first and last datastore call of some thread; distinct = hash of '
         '(P, S, backend, schedule string).')
@@ -64,6 +64,9 @@ PREFIXES = {
     'two_workers': [CREATE, {'op': 'SuggestTrials', 'study': STUDY, 'count': 1, 'client': 'w1', '_stub_entry': {'delta': 0}},
                     {'op': 'SuggestTrials', 'study': STUDY, 'count': 1, 'client': 'w2', '_stub_entry': {'delta': 0}}],
     'no_study': [],
+    # a paused study (one ACTIVE trial from before): re-activation racing trial-level calls
+    'inactive': [CREATE, {'op': 'SuggestTrials', 'study': STUDY, 'count': 1, 'client': 'w1', '_stub_entry': {'delta': 0}},
+                 {'op': 'SetStudyState', 'study': STUDY, 'state': 'INACTIVE'}],
     # a pool of queued (REQUESTED) trials larger than what one suggest call needs
     'pool': [CREATE] + [{'op': 'CreateTrial', 'study': STUDY, 'params': {'x': 0.125 * (i + 1), 'k': i + 1, 'c': 'a'}} for i in range(3)],
 }
@@ -89,6 +92,7 @@ MENU = {
     'MetaTrial2': {'op': 'UpdateMetadata', 'study': STUDY, 'delta': [[2, 'u', 'k', 'v1']]},
     'SetInactive': {'op': 'SetStudyState', 'study': STUDY, 'state': 'INACTIVE'},
     'SetCompleted': {'op': 'SetStudyState', 'study': STUDY, 'state': 'COMPLETED'},
+    'SetActive': {'op': 'SetStudyState', 'study': STUDY, 'state': 'ACTIVE'},
     'CreateStudy': dict(CREATE),
     'CreateStudyOther': {'op': 'CreateStudy', 'owner': 'o', 'display': 's2', 'algo': 'VVSTUB'},
     'CreateStudyB': {'op': 'CreateStudy', 'owner': 'o', 'display': 's', 'algo': 'VVSTUB',
@@ -115,11 +119,16 @@ def all_combos():
       pool = ['CreateStudy', 'CreateStudyB', 'CreateStudyOther', 'Suggest_w1', 'CreateTrial', 'MetaStudy', 'DeleteStudy']
     elif p == 'empty':
       pool = [n for n in names if not n.endswith('1') and not n.endswith('1b') and n not in ('Delete2', 'Delete3', 'MetaTrial2', 'MetaTrial1', 'EarlyStop1')]
+    elif p == 'inactive':
+      for other in ('CreateTrial', 'CreateTrialDone', 'Suggest_w1', 'Suggest_w2', 'Complete1', 'Measure1', 'Stop1', 'Delete1',
+                    'MetaStudy', 'MetaTrial1', 'EarlyStop1', 'SetCompleted', 'SetInactive', 'DeleteStudy'):
+        combos.append((p, ('SetActive', other)))
+      continue
     elif p == 'pool':
       pool = ['Suggest_w1', 'Suggest_w2', 'Delete1', 'Delete2', 'Delete3', 'CreateTrial', 'MetaTrial2', 'SetInactive', 'DeleteStudy']
     else:
       pool = [n for n in names if n != 'Delete3']
-    pool = [n for n in pool if n not in READS]
+    pool = [n for n in pool if n not in READS and n != 'SetActive']
     for a, b in itertools.combinations_with_replacement(pool, 2):
       if a == b and a not in ('Suggest_w1', 'CreateTrial', 'CreateStudy', 'MetaStudy', 'Complete1'):
         continue
@@ -184,6 +193,33 @@ def final_state(sv, mon):
   return {'snap': snap, 'ops': sorted(ops, key=lambda o: o['name'])}
 
 
+FOLLOWUP = [
+    {'op': 'CreateTrial', 'study': STUDY, 'params': {'x': 0.9, 'k': 9, 'c': 'b'}},
+    {'op': 'SuggestTrials', 'study': STUDY, 'count': 1, 'client': 'w-after', '_stub_entry': {'delta': 0}},
+    {'op': 'GetStudy', 'study': STUDY},
+]
+
+
+def followup(sv, backend):
+  """Sequential calls made after the concurrent phase (and after the stored state was
+  recorded): state that lives only in the server's memory (a cache, a lock table, an
+  abandoned operation) shows in what *later* calls do. Summarised without trial ids."""
+  from vv import service as S
+  out = []
+  for call in FOLLOWUP:
+    try:
+      ocls, oresp, _ = S.call_servicer(sv, call, wire=wire_mode(backend))
+    except Exception as e:  # pylint: disable=broad-except
+      ocls, oresp = 'HARNESS-EXC:' + type(e).__name__, None
+    row = [call['op'], ocls]
+    if ocls == 'OK' and call['op'] == 'SuggestTrials':
+      row += [bool(oresp.get('done')), bool(oresp.get('error')), len(oresp.get('trials') or [])]
+    if ocls == 'OK' and call['op'] == 'GetStudy':
+      row += [oresp.get('state')]
+    out.append(row)
+  return out
+
+
 def wire_mode(backend):
   """The in-memory SQLite runs execute the handlers with gRPC-handler semantics
   (status codes as a remote client sees them), the RAM runs in-process."""
@@ -199,7 +235,9 @@ def run_serial(backend, pname, names, order):
     call = MENU[names[i]]
     ocls, oresp, _ = S.call_servicer(sv, call, wire=wire_mode(backend))
     outs[i] = [ocls, oresp if ocls == 'OK' else None]
-  return {'outs': [outs[i] for i in range(len(names))], 'final': final_state(sv, mon), 'before_ids': before_ids}
+  final = final_state(sv, mon)
+  return {'outs': [outs[i] for i in range(len(names))], 'final': final, 'before_ids': before_ids,
+          'post': followup(sv, backend)}
 
 
 def trial_ids(sv):
@@ -244,8 +282,14 @@ def run_controlled(backend, pname, names, prefix_choices, rng=None):
       outs.append(['DEADLOCK', None])
     else:
       outs.append(['HARNESS-EXC:' + type(r[1]).__name__, str(r[1])[:200]])
-  return {'outs': outs, 'final': final_state(sv, mon), 'before_ids': before_ids, 'sched': sch, 'alive': alive,
-          'mon': mon, 'ctl': ctl, 'sv': sv}
+  final = final_state(sv, mon)
+  post = None
+  if not alive and not sch.deadlock:
+    # back to plain locks for the sequential follow-up calls
+    sv.datastore._yield = None
+    post = followup(sv, backend)
+  return {'outs': outs, 'final': final, 'before_ids': before_ids, 'sched': sch, 'alive': alive,
+          'mon': mon, 'ctl': ctl, 'sv': sv, 'post': post}
 
 
 def rename(x, mapping):
@@ -298,7 +342,7 @@ def strip_ops_for_deleted(result):
 
 
 def comparable(result):
-  return {'outs': result['outs'], 'final': result['final']}
+  return {'outs': result['outs'], 'final': result['final'], 'post': result.get('post')}
 
 
 def matches(obs, ser):
@@ -335,6 +379,12 @@ def describe_mismatch(obs, serials, names):
     d = model_lib.diff(comparable(s), comparable(obs))
     if best is None or len(d) < len(best):
       best = d
+  same_but_later = [s for s in serials if [o[0] for o in s['outs']] == outs and matches(
+      {'outs': obs['outs'], 'final': obs['final'], 'before_ids': obs['before_ids']},
+      {'outs': s['outs'], 'final': s['final'], 'before_ids': s['before_ids']})]
+  if same_but_later:
+    return 'later', (f'the calls and the stored state fit a serial order, but calls made afterwards, one at a time, '
+                     f'behave differently: {obs.get("post")} after the concurrent run, {same_but_later[0].get("post")} after that serial order')
   final_ok = any(matches({'outs': [], 'final': obs['final'], 'before_ids': obs['before_ids']},
                          {'outs': [], 'final': s['final'], 'before_ids': s['before_ids']})
                  for s in serials if [o[0] for o in s['outs']] == outs)
@@ -420,6 +470,9 @@ def classify(names, kind, text, obs, pname=None):
       return f'non-serialisable-response:{pair}:metadata:{mismatch_site(names, text)}'
   if kind == 'deadlock':
     return f'deadlock:{pair}'
+  if kind == 'later':
+    bad = sorted({r[0] + '->' + r[1] for r in (obs.get('post') or []) if r[1] != 'OK'})
+    return f'later-calls-differ:{pair}:' + (','.join(bad) or 'responses')
   if kind == 'unfinished-op':
     return f'operation-left-unfinished:{pair}'
   if kind == 'outcome':
